@@ -300,6 +300,18 @@ func (u *Unit) frameFormula(b *Block, st *State, entry *State, pos token.Pos) []
 			if item == "*" {
 				return nil
 			}
+			if strings.HasPrefix(item, "allbut(") {
+				keep := map[string]bool{}
+				for _, k := range strings.Split(item[7:len(item)-1], ",") {
+					keep[strings.TrimSpace(k)] = true
+				}
+				for h := range st.heaps {
+					if !keep[h] {
+						allowedAll[h] = true
+					}
+				}
+				continue
+			}
 			ce := u.specEv(entry, pos)
 			ce.old = entry
 			name, _, ref, ok := ce.modItem(item, ce)
@@ -346,6 +358,18 @@ func (u *Unit) frameObligations(b *Block, exits []*Exit, entry *State, pos token
 		for _, item := range splitTopSpaces(c.Text) {
 			if item == "*" {
 				star = true
+				continue
+			}
+			if strings.HasPrefix(item, "allbut(") {
+				keep := map[string]bool{}
+				for _, k := range strings.Split(item[7:len(item)-1], ",") {
+					keep[strings.TrimSpace(k)] = true
+				}
+				for h := range u.writes {
+					if !keep[h] {
+						allowedAll[h] = true
+					}
+				}
 				continue
 			}
 			ce := u.specEv(entry, pos)
@@ -488,6 +512,14 @@ func (o *Obligation) queryV(g *Gen, withModel bool, variant int) string {
 			}
 			seen[d] = true
 			sb.WriteString("(assert " + d + ")\n")
+		}
+	}
+	if o.unit != nil && variant < 3 {
+		for _, d := range o.unit.sepDefs {
+			if !seen[d] {
+				seen[d] = true
+				sb.WriteString("(assert " + d + ")\n")
+			}
 		}
 	}
 	for _, h := range o.Hyps {
